@@ -327,6 +327,10 @@ func sliceEqualityIssues(p *core.Prog, pkgs []*packages.Package) (issues []slice
 			if b, ok := sig.Results().At(0).Type().Underlying().(*types.Basic); !ok || b.Kind() != types.Bool {
 				continue
 			}
+			// a function that says it is a prefix test is one
+			if ln := strings.ToLower(fi.Decl.Name.Name); strings.Contains(ln, "prefix") || strings.Contains(ln, "startswith") {
+				continue
+			}
 			info := fi.Pkg.TypesInfo
 			counts := map[string]int{}
 			ast.Inspect(fi.Decl.Body, func(nd ast.Node) bool {
